@@ -921,9 +921,69 @@ impl<Kd: K> Interp<Kd> {
                     unsafe { oxidd_dddmp_num_vars(file) },
                     unsafe { oxidd_dddmp_num_support_vars(file) }
                 ));
+                // header queries, compared with the header the Rust API loads from the mirror's file
+                let sl = |x: SliceU32| -> Vec<u32> {
+                    if x.ptr.is_null() { Vec::new() } else { unsafe { std::slice::from_raw_parts(x.ptr, x.len) }.to_vec() }
+                };
+                let st = |x: StrT| -> String {
+                    if x.ptr.is_null() {
+                        String::new()
+                    } else {
+                        unsafe { String::from_utf8_lossy(std::slice::from_raw_parts(x.ptr as *const u8, x.len)).into_owned() }
+                    }
+                };
+                let order = sl(unsafe { oxidd_dddmp_support_var_order(file) });
+                let fvars = unsafe { oxidd_dddmp_num_vars(file) };
+                let has_vn = unsafe { oxidd_dddmp_has_var_names(file) };
+                let has_rn = unsafe { oxidd_dddmp_has_root_names(file) };
+                let chdr = format!(
+                    "{}|{}|{:?}|{:?}|{:?}|{}|{:?}|{}|{:?}",
+                    unsafe { oxidd_dddmp_num_nodes(file) },
+                    fvars,
+                    sl(unsafe { oxidd_dddmp_support_vars(file) }),
+                    order,
+                    sl(unsafe { oxidd_dddmp_support_var_to_level(file) }),
+                    has_vn as u8,
+                    (0..fvars).map(|i| st(unsafe { oxidd_dddmp_var_name(file, i) })).collect::<Vec<_>>(),
+                    has_rn as u8,
+                    (0..nroots).map(|i| st(unsafe { oxidd_dddmp_root_name(file, i) })).collect::<Vec<_>>()
+                );
+                let rhdr = match std::fs::File::open(&rpath)
+                    .and_then(|f| oxidd_dump::dddmp::DumpHeader::load(&mut std::io::BufReader::new(f)))
+                {
+                    Err(e) => format!("err:{e}"),
+                    Ok(h) => format!(
+                        "{}|{}|{:?}|{:?}|{:?}|{}|{:?}|{}|{:?}",
+                        h.num_nodes(),
+                        h.num_vars(),
+                        h.support_vars(),
+                        h.support_var_order(),
+                        h.support_var_to_level(),
+                        h.var_names().is_some() as u8,
+                        (0..h.num_vars() as usize)
+                            .map(|i| h.var_names().map(|v| v[i].clone()).unwrap_or_default())
+                            .collect::<Vec<_>>(),
+                        h.root_names().is_some() as u8,
+                        (0..h.num_roots()).map(|i| h.root_names().map(|v| v[i].clone()).unwrap_or_default()).collect::<Vec<_>>()
+                    ),
+                };
+                out.push_str(&format!(" hdr={}", (chdr == rhdr) as u8));
+                if chdr != rhdr {
+                    out.push_str(&format!(" chdr={} rhdr={}", chdr.replace(' ', ""), rhdr.replace(' ', "")));
+                }
                 let mut roots = vec![INVALID; nroots];
                 let mut err = empty_error();
-                let iok = unsafe { (c.import_dddmp)(m, file, std::ptr::null(), roots.as_mut_ptr(), &mut err) };
+                // the support variable mapping is passed explicitly every other time
+                let explicit = cpath.len() % 2 == 0 || ascii;
+                let iok = unsafe {
+                    (c.import_dddmp)(
+                        m,
+                        file,
+                        if explicit && !order.is_empty() { order.as_ptr() } else { std::ptr::null() },
+                        roots.as_mut_ptr(),
+                        &mut err,
+                    )
+                };
                 let ie = if iok {
                     unsafe { oxidd_error_free(err) };
                     "-".to_string()
